@@ -5,7 +5,7 @@
     format"; [finite] = zero or finite non-zero.  [widen] is [f80::from(f64)], [narrow] is [f64::from(f80)],
     [add80 … abs80] are the operations of the model ([C18/Model.v]), which the correspondence batches compare
     with the x87 results bit for bit on every run. *)
-From Coq Require Import ZArith Reals Bool Floats.SpecFloat.
+From Coq Require Import ZArith Reals Bool List Floats.SpecFloat.
 From Flocq Require Import Core.Zaux Core.Raux Core.Defs Core.Generic_fmt Core.FLT Core.Round_NE
   IEEE754.BinarySingleNaN.
 From RlibV Require Import C18.Model C18.Corr C18.Spec C18.Transport C18.ProofsConv C18.ProofsArith
@@ -217,6 +217,16 @@ Proof. exact rne_ok_sound. Qed.
     data of the extended format), every observed arithmetic result is the IEEE result — the exact real result
     rounded to nearest even by [c18_add_correct_f80] … [c18_div_correct_f80], with the special-value tables — and
     every observed binary64 result is the correct rounding ([c18_narrow_correct]) of the observed extended one.
+
+    Group [OExt] (relations on operands that are NOT images of binary64 values: [ext_pairs o] lists the observed
+    raws of (e, n_e), (n_e, e) for e = x*y+x, x*y, x/y, x+y and n_e = f80::from(f64::from(e)), and of three
+    pairs of unrelated extended values, each with what the library returned on it): the operands are data of
+    the extended format and every observed [<], [<=], [>], [>=], [==], [partial_cmp] IS the relation of the
+    model on the decoded OBSERVED operands — hence the IEEE comparison by [c18_lt_is_ieee], [c18_eq_is_ieee],
+    [c18_le_ge_partial_cmp] and the order of the real values by [c18_compare_real_f80]; the observed [min] /
+    [max] is one of the operands and a lower / upper bound of both (the characterisation of
+    [c18_min_max_abs]); the observed [abs e] is [e] with the sign cleared (either zero for a zero); the observed
+    f64::from(x*y+x) is the correct rounding and every n_e is the exact widening of the observed f64::from(e).
     With a batch lemma [forallb spec_check cases = true] this holds for every sampled case, independently of
     [model_check]. *)
 Theorem c18_spec_check_sound : forall (op : opk) (a b : Z) (o : obs), spec_check (Case op a b o) = true ->
@@ -233,5 +243,25 @@ Theorem c18_spec_check_sound : forall (op : opk) (a b : Z) (o : obs), spec_check
   /\ (sel op OChain = true -> valid80 x /\ valid80 y /\ valid80 (decode80 (o_mul o))
                          /\ decode80 (o_mad o) = add80 (decode80 (o_mul o)) x
                          /\ decode80 (o_chain o) = div80 (decode80 (o_mad o)) y
-                         /\ decode64 (o_nchain o) = narrow (decode80 (o_chain o))).
-Proof. exact spec_check_arith. Qed.
+                         /\ decode64 (o_nchain o) = narrow (decode80 (o_chain o)))
+  /\ (sel op OExt = true ->
+        (forall (u v : raw) (r : relobs), In (u, v, r) (ext_pairs o) ->
+           let X := decode80 u in
+           let Y := decode80 v in
+           valid80 X /\ valid80 Y
+           /\ r_lt r = lt80 X Y /\ r_le r = le80 X Y /\ r_gt r = gt80 X Y /\ r_ge r = ge80 X Y
+           /\ r_eq r = eq80 X Y /\ r_pcmp r = pcmp_code (partial_cmp80 X Y)
+           /\ (X <> S754_nan -> Y <> S754_nan ->
+               ((decode80 (r_min r) = X \/ decode80 (r_min r) = Y)
+                /\ SFleb (decode80 (r_min r)) X = true /\ SFleb (decode80 (r_min r)) Y = true)
+               /\ ((decode80 (r_max r) = X \/ decode80 (r_max r) = Y)
+                   /\ SFleb X (decode80 (r_max r)) = true /\ SFleb Y (decode80 (r_max r)) = true)))
+        /\ (forall u t : raw, In (u, t) (ext_abs o) ->
+              match decode80 u with
+              | S754_nan => True
+              | S754_zero _ => exists s : bool, decode80 t = S754_zero s
+              | E => decode80 t = SFabs E
+              end)
+        /\ decode64 (x_nmad (o_ext o)) = narrow (decode80 (o_mad o))
+        /\ (forall (n : Z) (w : raw), In (n, w) (ext_widened o) -> decode80 w = widen (decode64 n))).
+Proof. exact spec_check_sound. Qed.
